@@ -157,6 +157,52 @@ def nesting_scanner(ctx):
     for c in "\\[]()":
         if c not in seen:
             d["arm-missing|%s" % c] = [False, "compute_nesting_table has no arm for '%s'" % c, b.loc()]
+    # the two stacks: every '(' outside a class records its kind (capturing or not) on a per-parenthesis stack and
+    # ')' pops exactly that entry; only a capturing parenthesis moves the stack of enclosing capturing groups
+    kinds = [i for i, l in enumerate(b.locals) if strip_lt(l["ty"]) == "std::vec::Vec<bool>" and l.get("name")]
+    parents = [i for i, l in enumerate(b.locals) if strip_lt(l["ty"]) == "std::vec::Vec<usize>" and l.get("name")]
+    if len(kinds) != 1 or len(parents) != 1:
+        _rec(d, "paren-kind-stack", False, "compute_nesting_table no longer keeps one stack of parenthesis kinds (Vec<bool>) and one of enclosing groups (Vec<usize>): a counter cannot tell which kind of parenthesis a ')' closes when kinds interleave", b.loc())
+        return _emit(d)
+    K, S = kinds[0], parents[0]
+    for p in ctx.walk(b, start_bb=h).paths:
+        gs0 = [strip_ver(g) for g in summarize(p)[0]]
+        if not p.end.startswith("loop") or len(gs0) < 3 or not re.match(r"^!?eq\(0, uninit\(\d+\)\)$", gs0[2]) or gs0[2].startswith("!"):
+            continue
+        m = re.match(r"(?s)^a1\[(uninit\(\d+\))\]='(.)'$", gs0[1])
+        if not m or m.group(2) not in "()":
+            continue
+        loc = b.loc(p.blocks[-1])
+        st = [(strip_ver(render(e[1])), strip_ver(render(e[2]))) for e in p.effects if e[0] == "store"]
+        env = {l: strip_ver(render(v)) for l, v in p.env.items() if v != ("uninit", l)}
+        if m.group(2) == "(":
+            ks = [(pl, v) for pl, v in st if pl.startswith("uninit(%d)[" % K)]
+            capt = [g for g in gs0 if re.match(r"^!?eq\('\?', a1\[add\(1, %s\)\]\)$" % re.escape(m.group(1)), g)]
+            good = len(ks) == 1 and bool(capt)
+            if good:
+                mt = re.match(r"^uninit\(%d\)\[uninit\((\d+)\)\]$" % K, ks[0][0])
+                good = mt is not None and env.get(int(mt.group(1))) == "add(1, uninit(%s))" % mt.group(1)
+                is_cap = capt[0].startswith("!")
+                good = good and ks[0][1] in (("true", "!eq('?', a1[add(1, %s)])" % m.group(1)) if is_cap else ("false", "!eq('?', a1[add(1, %s)])" % m.group(1)))
+                ps = [(pl, v) for pl, v in st if pl.startswith("uninit(%d)[" % S)]
+                if is_cap:
+                    mp = re.match(r"^uninit\(%d\)\[uninit\((\d+)\)\]$" % S, ps[0][0]) if len(ps) == 1 else None
+                    good = good and mp is not None and env.get(int(mp.group(1))) == "add(1, uninit(%s))" % mp.group(1)
+                else:
+                    good = good and not ps
+            _rec(d, "open|kind-pushed", good, "'(' outside a class must push its kind (capturing or not) on the stack of open parentheses - and, when capturing, itself on the stack of enclosing groups; stores %s" % st[:3], loc)
+        else:
+            kg = [g for g in gs0 if re.match(r"^!?uninit\(%d\)\[sub\(uninit\(\d+\), 1\)\]$" % K, g)]
+            good = len(kg) == 1
+            if good:
+                ti = int(re.search(r"\[sub\(uninit\((\d+)\), 1\)\]$", kg[0]).group(1))
+                good = env.get(ti) in ("sub(uninit(%d), 1)" % ti, "add(-1, uninit(%d))" % ti)
+                moved = [l for l, v in env.items() if l != ti and strip_lt(b.locals[l]["ty"]) == "usize" and v in ("sub(uninit(%d), 1)" % l, "add(-1, uninit(%d))" % l)]
+                good = good and (len(moved) == 1 if not kg[0].startswith("!") else len(moved) == 0)
+            _rec(d, "close|pops-the-kind-it-pushed", good, "')' outside a class must pop the kind of the parenthesis it closes and leave the stack of enclosing groups alone unless that parenthesis was capturing; guards %s" % gs0[2:5], loc)
+    for k in ("open|kind-pushed", "close|pops-the-kind-it-pushed"):
+        if k not in d:
+            d[k] = [False, "compute_nesting_table lost its %s clause (restructured; re-audit)" % k, b.loc()]
     return _emit(d)
 
 
